@@ -26,6 +26,12 @@ def main():
             return getattr(mod, "replay_" + pid.lower())(replay)
         return getattr(mod, "check_" + pid.lower())(tier)
     except vlib.Infra as e:
+        rep = vlib.CURRENT_REPORT
+        if rep is not None and rep.violations:
+            # violations already established from real behaviour stay reported; the later infrastructure problem
+            # (typically a negative control whose "good" sample is itself one of the violating cases) is only noted
+            print("note: infrastructure problem after violations were found: %s" % str(e)[:300])
+            return rep.finish()
         print("INFRASTRUCTURE (exit 2, not a verdict): %s" % e)
         return 2
     except Exception:
